@@ -357,6 +357,10 @@ class Infeasible(Exception):
     pass
 
 
+class StopDepth(Exception):
+    pass
+
+
 class Env:
     def __init__(self, parent=None):
         self.vars = {}
@@ -416,7 +420,9 @@ class Executor:
         self._variants_of = {}     # term key -> {variant name: Bool}
         self.queries = 0
         self.solver_time = 0.0
-        self.V = z3.DeclareSort("V")
+        self.V = z3.IntSort()       # values: concrete ones are distinct integers, opaque ones are Int unknowns
+        self._concrete_ids = {}
+        self._exh = set()
         self._vconsts = {}
         self._vfuncs = {}
         # per-path state
@@ -449,15 +455,15 @@ class Executor:
         if vname not in d:
             b = z3.Bool("is!%s!%s" % (vname, k))
             for o in d.values():
-                self.axioms.append(z3.Not(z3.And(b, o)))
+                self.add_axiom(z3.Not(z3.And(b, o)))
             d[vname] = b
         if exhaustive:
             for n in exhaustive:
                 if n not in d:
                     self.is_variant(t, n)
-            ax = z3.Or(*[d[n] for n in exhaustive])
-            if not any(ax.eq(a) for a in self.axioms[-8:]):
-                self.axioms.append(ax)
+            if k not in self._exh:
+                self._exh.add(k)
+                self.add_axiom(z3.Or(*[d[n] for n in exhaustive]))
         return d[vname]
 
     def lower(self, v):
@@ -477,15 +483,21 @@ class Executor:
         return self._vconst("c!" + vkey(v), concrete=True)
 
     def _vconst(self, name, concrete=False):
+        if concrete:
+            i = self._concrete_ids.get(name)
+            if i is None:
+                i = len(self._concrete_ids) + 1
+                self._concrete_ids[name] = i
+            return z3.IntVal(i)
         c = self._vconsts.get(name)
         if c is None:
             c = z3.Const(name, self.V)
-            if concrete:
-                others = [o for n, o in self._vconsts.items() if n.startswith("c!")]
-                for o in others:
-                    self.axioms.append(c != o)
             self._vconsts[name] = c
         return c
+
+    def add_axiom(self, ax):
+        self.axioms.append(ax)
+        self.solver.add(ax)      # base level: persists across the push/pop of feasibility queries
 
     def fresh(self, hint):
         self.fresh_n += 1
@@ -496,7 +508,6 @@ class Executor:
         import time
         t0 = time.time()
         self.solver.push()
-        self.solver.add(*self.axioms)
         self.solver.add(*self.pc)
         self.solver.add(extra)
         r = self.solver.check()
@@ -518,12 +529,14 @@ class Executor:
             return True
         if z3.is_false(cond):
             return False
+        if getattr(self, "stop_depth", None) is not None and self.pos >= self.stop_depth:
+            raise StopDepth()
         if self.pos < len(self.trail):
             val, _ = self.trail[self.pos]
-            if self.trail_conds[self.pos] != cond.sexpr():
+            if self.trail_conds[self.pos] is not None and self.trail_conds[self.pos] != cond.sexpr():
                 raise Unsupported("re-execution diverged at decision %d: %s vs %s" % (self.pos, self.trail_conds[self.pos], cond.sexpr()))
             self.pos += 1
-            self.pc.append(cond if val else z3.Not(cond))
+            self.pc.append(cond if val else z3.simplify(z3.Not(cond)))
             return val
         t_ok = self.feasible(cond)
         f_ok = self.feasible(z3.Not(cond))
@@ -534,7 +547,7 @@ class Executor:
         val = t_ok
         self.trail.append((val, t_ok and f_ok))   # (value, has untried alternative)
         self.pos += 1
-        self.pc.append(cond if val else z3.Not(cond))
+        self.pc.append(cond if val else z3.simplify(z3.Not(cond)))
         return val
 
     def truth(self, v):
@@ -548,12 +561,16 @@ class Executor:
             return self.bool_of(v)
         raise Unsupported("not a boolean: %r" % (v,))
 
-    def explore(self, fn, args, module=None, self_ty=None):
+    def explore(self, fn, args, module=None, self_ty=None, prefix=None, stop_depth=None):
         """Runs fn on all feasible paths. fn: Fn item. args: list of values (fresh structures are rebuilt by
-        calling args() if it is callable, so that each run starts from the same initial state)."""
+        calling args() if it is callable, so that each run starts from the same initial state).
+        prefix: fixed initial decisions (explore only that subtree).  stop_depth: cut every run after that many
+        decisions and return the list of decision prefixes instead of path results (used to split the work)."""
         results = []
-        self.trail = []
-        self.trail_conds = []
+        self.trail = [(v, False) for v in (prefix or [])]
+        self.trail_conds = [None] * len(self.trail)
+        self.stop_depth = stop_depth
+        prefixes = []
         while True:
             self.pos = 0
             self.pc = []
@@ -566,6 +583,7 @@ class Executor:
             self.self_ty_stack = []
             a = args() if callable(args) else args
             ret, panic = None, None
+            cut = False
             try:
                 ret = self.call_fn(fn, a, module, self_ty=self_ty)
             except PanicSig as p:
@@ -573,7 +591,11 @@ class Executor:
             except Infeasible:
                 ret = None
                 panic = "__infeasible__"
-            if panic != "__infeasible__":
+            except StopDepth:
+                cut = True
+            if stop_depth is not None:
+                prefixes.append(([v for v, _ in self.trail], not cut))
+            elif panic != "__infeasible__":
                 results.append(PathResult(list(self.pc), list(self.events), ret, panic,
                                           [v for v, _ in self.trail], list(self.notes)))
                 if len(results) > self.max_paths:
@@ -584,10 +606,15 @@ class Executor:
             if not self.trail:
                 break
             self.trail[-1] = (False, False)
+        if stop_depth is not None:
+            return prefixes
         return results
 
     # ---- events -----------------------------------------------------------------------------------
     def event(self, name, *args, **kw):
+        # args are live objects; `keys` is the snapshot of their structure at event time
+        kw = dict(kw)
+        kw["keys"] = [vkey(a) for a in args]
         self.events.append((name, args, kw))
 
     # ---- function calls ---------------------------------------------------------------------------
@@ -670,6 +697,9 @@ class Executor:
                     return self.call_fn(f, args, mod)
         # tuple-struct / tuple-variant constructor of a known enum
         if len(segs) >= 2 and segs[-2] in self.prog.enums:
+            return Variant(segs[-2] + "::" + name, list(args))
+        if len(segs) >= 2 and segs[-1][:1].isupper() and segs[-2][:1].isupper():
+            # tuple-variant / tuple-struct constructor of a type that is not loaded
             return Variant(segs[-2] + "::" + name, list(args))
         raise Unsupported("call to unknown function `%s` (line %s)" % (path, node.get("line")))
 
@@ -1501,7 +1531,7 @@ def builtin_method(ex, recv, name, args, node):
             ex_l = [SOME, NONE] if want in (SOME, NONE) else [OK, ERR]
             return Z(ex.is_variant(r0, want, ex_l))
     if name in ("unwrap", "expect", "unwrap_or_default", "unwrap_or", "unwrap_or_else"):
-        kind = None
+        kind = "option" if (name == "unwrap_or_else" and isinstance(args[0], Closure) and not args[0].params) else None
         v = as_option(ex, recv, kind)
         if v.name in (SOME, OK):
             return v.payload[0]
@@ -1539,7 +1569,8 @@ def builtin_method(ex, recv, name, args, node):
             return Variant(v.name, [r])
         return v
     if name in ("or_else", "or"):
-        v = as_option(ex, recv)
+        kind = "option" if (args and isinstance(args[0], Closure) and not args[0].params) else None
+        v = as_option(ex, recv, kind)
         if v.name in (SOME, OK):
             return v
         if name == "or":
@@ -1597,3 +1628,35 @@ def builtin_method(ex, recv, name, args, node):
         if name == "to_ascii_lowercase":
             return r0.lower()
     return NotImplemented
+
+
+# --------------------------------------------------------------------------------------------------
+# Parallel exploration: the decision tree is cut at `depth`; each subtree is explored (and checked) in a
+# forked worker.  make() -> (executor, fn, args, module, self_ty); check(ex, paths) -> picklable result.
+# --------------------------------------------------------------------------------------------------
+_PAR = {}
+
+
+def _par_worker(job):
+    key, prefixes = job
+    make, check = _PAR[key]
+    out = []
+    for pre in prefixes:
+        ex, fn, args, module, self_ty = make()
+        paths = ex.explore(fn, args, module, self_ty=self_ty, prefix=pre)
+        out.append((check(ex, paths), len(paths), ex.queries, ex.solver_time))
+    return out
+
+
+def parallel_explore(make, check, depth=9, procs=14, key="job"):
+    import multiprocessing as mp
+    _PAR[key] = (make, check)
+    ex, fn, args, module, self_ty = make()
+    pres = [p for p, _ in ex.explore(fn, args, module, self_ty=self_ty, stop_depth=depth)]
+    n = max(1, min(len(pres), procs * 6))
+    chunks = [(key, pres[i::n]) for i in range(n)]
+    chunks = [c for c in chunks if c[1]]
+    with mp.get_context("fork").Pool(procs) as pool:
+        res = pool.map(_par_worker, chunks, chunksize=1)
+    flat = [r for chunk in res for r in chunk]
+    return flat, len(pres), ex.queries, ex.solver_time
